@@ -22,6 +22,7 @@ RULE = ('cases = (cost spec, registered pattern, axis, fixed values of the other
         'counts around every tile boundary with gradients, helper exactness on all integer pairs, '
         'and rejection probes.  Non-trivial: a sweep of >= 3 points for a registered function; '
         'distinct = (spec, pattern, axis, fixed point).')
+RULE += ('  Round 5: non-square kernel rejection probes for NE16.')
 ASSUMPTIONS = [
     'each registered function is called directly on specs satisfying its own pattern (a 1-channel '
     'conv also matches the depthwise constraint, so lookups would mix formulas)',
@@ -362,9 +363,14 @@ def run_reject(case, ctx):
             s = mk_spec('ne16_latency', tname, kind, 8, 8, 3, 4, wb=8, ab=ab)
             expect_reject(ctx, f'ne16:{tname}:{kind}:a{ab}', fn, s)
         if tname == 'Conv2d':
-            for k in ((5,) if kind == 'gen' else (1, 5)):
+            for k in ((5, 2, 7) if kind == 'gen' else (1, 5, 2)):
                 s = mk_spec('ne16_latency', tname, kind, 8, 8, k, 4, wb=8, ab=8)
                 expect_reject(ctx, f'ne16:{tname}:{kind}:k{k}', fn, s)
+            # non-square kernels, also those whose entries are each supported on their own
+            for kk in ((1, 3), (3, 1), (3, 5), (5, 3), (1, 5), (3, 2)):
+                s = mk_spec('ne16_latency', tname, kind, 8, 8, 3, 4, wb=8, ab=8)
+                s['kernel_size'] = kk
+                expect_reject(ctx, f'ne16:{tname}:{kind}:k{kk[0]}x{kk[1]}', fn, s)
     for tname, kind, fn in registered(specs['diana_latency']):
         for wb, ab in [(4, 8), (8, 4), (2, 2), (0, 8), (16, 8)]:
             s = mk_spec('diana_latency', tname, kind, 8, 8, 3, 4, wb=wb, ab=ab)
